@@ -176,9 +176,9 @@ func newGenerator(prof string, r *rng, maxOps int) *generator {
 	case "defrag":
 		g.weights = []wop{{"alloc", 10}, {"palloc", 20}, {"free", 22}, {"rw", 8}, {"mkpool", 3}, {"defrag", 30}, {"map", 3}, {"unmap", 3}, {"allocm", 3}}
 	case "gran":
-		g.weights = []wop{{"cbuf", 25}, {"cimg", 25}, {"dres", 25}, {"alloc", 8}, {"free", 8}, {"rawres", 6}, {"ares", 6}, {"bind", 6}, {"rdres", 3}, {"mkpool", 2}, {"rw", 2}}
+		g.weights = []wop{{"cbuf", 25}, {"cimg", 25}, {"dres", 25}, {"alloc", 8}, {"free", 8}, {"rawres", 6}, {"ares", 6}, {"bind", 6}, {"rdres", 3}, {"mkpool", 2}, {"rw", 2}, {"alias", 6}}
 	case "malformed":
-		g.weights = []wop{{"bad", 45}, {"alloc", 15}, {"palloc", 8}, {"free", 12}, {"mkpool", 4}, {"map", 3}, {"unmap", 3}, {"flush", 4}, {"defrag", 4}, {"stats", 1}}
+		g.weights = []wop{{"bad", 45}, {"alloc", 15}, {"palloc", 8}, {"free", 12}, {"mkpool", 4}, {"map", 3}, {"unmap", 3}, {"flush", 4}, {"defrag", 4}, {"stats", 1}, {"alias", 5}, {"rdres", 2}}
 	case "teardown":
 		g.weights = []wop{{"alloc", 30}, {"palloc", 15}, {"free", 20}, {"mkpool", 6}, {"rmpool", 4}, {"cbuf", 5}, {"dres", 4}, {"map", 4}, {"allocm", 4}, {"destroy", 2}, {"rmpoolbusy", 2}, {"lalloc", 10}}
 	case "core":
@@ -1090,6 +1090,37 @@ func (g *generator) genNamed(w *World, name string) (Op, bool) {
 		if g.activeDefrag(w) < 0 {
 			return mkOp("destroy"), true
 		}
+	case "alias": // aliasing buffer / image inside a live allocation, mostly valid, sometimes out of range
+		a := g.pickOf(g.liveSlots(w, func(s int) bool { return !w.inPendingMove(s) }))
+		rs := -1
+		for i := range w.res {
+			if !w.res[i].live {
+				rs = i
+				break
+			}
+		}
+		if a < 0 || rs < 0 {
+			return Op{}, false
+		}
+		sz := w.slots[a].Size()
+		off, size := 0, r.rangeIncl(1, max(1, sz))
+		switch r.intn(10) {
+		case 0:
+			off = -2000000 // whole-allocation variant
+		case 1:
+			off, size = r.pick(-1, -16, -sz), r.rangeIncl(1, max(1, sz/2)) // negative offset
+		case 2:
+			off, size = r.rangeIncl(0, sz), r.rangeIncl(1, sz+64) // may overrun
+		case 3:
+			size = 0
+		default:
+			off = r.rangeIncl(0, max(0, sz-1))
+			size = r.rangeIncl(1, max(1, sz-off))
+		}
+		if r.chance(50) {
+			return mkOp("xbuf", rs, a, off, size), true
+		}
+		return mkOp("ximg", rs, a, off, size, r.intn(2)), true
 	case "mkpoolt", "palloct", "fault":
 		return g.genCore(w, name)
 	case "defragc":
